@@ -112,12 +112,29 @@ func RunByteStream(finals []BSFinal, seed int64, blobSizes []int, stride int) (r
 	}
 	defer f.Close()
 	for ki, k := range keys {
-		if stride > 1 && (ki+int(seed))%stride != 0 {
-			continue
-		}
 		ex := by[k]
 		s := ex.script
+		// scripts that send more than the blob (on a blob that is not there yet) are where the end-of-data
+		// handling of the writer shows: they are replayed with the large, chunk-multiple sizes whatever the stride
+		payload := 0
+		for _, m := range s.Msgs {
+			payload += m.Len
+		}
+		surplus := payload > 2 && !s.Exists && s.Name == "ok"
+		picked := !(stride > 1 && (ki+int(seed))%stride != 0)
+		if !picked && !surplus {
+			continue
+		}
 		for _, bsz := range blobSizes {
+			// negative sizes are large blobs (chunk-size multiples)
+			if bsz < 0 {
+				if !surplus && !(picked && (ki/maxInt(stride, 1)+int(seed))%16 == 0) {
+					continue
+				}
+				bsz = -bsz
+			} else if !picked {
+				continue
+			}
 			blob := drv.MkBlob(drv.GenData(rng, bsz, rng.Intn(3)))
 			// the abstract blob has 2 bytes: two parts of the transport stream
 			stream := blob.Data
@@ -151,7 +168,8 @@ func RunByteStream(finals []BSFinal, seed int64, blobSizes []int, stride int) (r
 					// no segment is exactly "uploads" / "blobs"
 					fmt.Sprintf("inst/myuploads/%s/blobs/%s/%d", uuid, blob.Hash, bsz), fmt.Sprintf("x-uploads/%s/blobs/%s/%d", uuid, blob.Hash, bsz),
 					fmt.Sprintf("uploads/%s/myblobs/%s/%d", uuid, blob.Hash, bsz), fmt.Sprintf("uploads/%s/blobs/%s/-%d", uuid, blob.Hash, bsz),
-					fmt.Sprintf("uploads/%s/a/b/blobs/%s/%d", uuid, blob.Hash, bsz), fmt.Sprintf("uploads//blobs/%s/%d", blob.Hash, bsz)}
+					fmt.Sprintf("uploads/%s/a/b/blobs/%s/%d", uuid, blob.Hash, bsz)}
+				// (an empty or odd upload id is not a malformed name: the server ignores that segment)
 				name = bad[rng.Intn(len(bad))]
 			case s.Zstd:
 				name = fmt.Sprintf("%suploads/%s/compressed-blobs/zstd/%s/%d%s", inst, uuid, blob.Hash, bsz, tail)
@@ -220,26 +238,51 @@ func RunByteStream(finals []BSFinal, seed int64, blobSizes []int, stride int) (r
 			if callErr != nil {
 				answer = "error"
 			}
-			// wait for the call's goroutines to finish, then look at what is stored
+			// wait until the call has come to rest on the server - its goroutines gone (for two samples in a row: after
+			// an abort the handler may not even have started yet) and nothing reserved -, then look at what is stored.
+			// A goroutine or reservation that is still there after 5 s is a leak, not a slow machine.
 			left, sample := 0, ""
-			for i := 0; i < 400; i++ {
+			calm, needCalm := 0, 1
+			if s.Ending == "abort" {
+				needCalm = 2
+			}
+			for i := 0; i < 2500 && calm < needCalm; i++ {
 				left, sample = serverGoroutines()
 				left -= before
-				if left <= 0 {
-					break
+				_, rv, _, _ := f.Cache.Stats()
+				if left <= 0 && rv == 0 {
+					calm++
+					if calm < needCalm {
+						time.Sleep(3 * time.Millisecond)
+					}
+				} else {
+					calm = 0
+					time.Sleep(2 * time.Millisecond)
 				}
-				time.Sleep(time.Millisecond)
 			}
-			fctx, fcancel := fe.Ctx()
-			fm, e := f.CAS.FindMissingBlobs(fctx, &pb.FindMissingBlobsRequest{BlobDigests: []*pb.Digest{{Hash: blob.Hash, SizeBytes: int64(bsz)}}})
-			fcancel()
+			probe := func() (bool, *bytestream.QueryWriteStatusResponse, error, error) {
+				fctx, fcancel := fe.Ctx()
+				fm, e := f.CAS.FindMissingBlobs(fctx, &pb.FindMissingBlobsRequest{BlobDigests: []*pb.Digest{{Hash: blob.Hash, SizeBytes: int64(bsz)}}})
+				fcancel()
+				if e != nil {
+					return false, nil, nil, e
+				}
+				qctx, qcancel := fe.Ctx()
+				q, qe := f.BS.QueryWriteStatus(qctx, &bytestream.QueryWriteStatusRequest{ResourceName: fmt.Sprintf("%suploads/%s/blobs/%s/%d", inst, uuid, blob.Hash, bsz)})
+				qcancel()
+				return len(fm.MissingBlobDigests) == 0, q, qe, nil
+			}
+			stored, qws, qe, e := probe()
 			if e != nil {
 				return runs, viols, e
 			}
-			stored := len(fm.MissingBlobDigests) == 0
-			qctx, qcancel := fe.Ctx()
-			qws, qe := f.BS.QueryWriteStatus(qctx, &bytestream.QueryWriteStatusRequest{ResourceName: fmt.Sprintf("%suploads/%s/blobs/%s/%d", inst, uuid, blob.Hash, bsz)})
-			qcancel()
+			// the two probes are taken one after the other: if they disagree, the upload may have landed in between
+			for try := 0; try < 3 && qe == nil && qws.Complete != stored; try++ {
+				time.Sleep(20 * time.Millisecond)
+				if stored, qws, qe, e = probe(); e != nil {
+					return runs, viols, e
+				}
+			}
 			run := BSRun{Script: s, BlobSize: bsz, Answer: answer, Stored: stored}
 			if resp != nil {
 				run.Committed = resp.CommittedSize
@@ -281,13 +324,19 @@ func RunByteStream(finals []BSFinal, seed int64, blobSizes []int, stride int) (r
 				bad("C16", "QueryWriteStatus failed on a well-formed resource name: %v", qe)
 			}
 			if left > 0 {
-				bad("C14", "%d goroutine(s) of the call are still alive 400 ms after it ended: %s", left, sample)
+				bad("C14", "%d goroutine(s) of the call are still alive 5 s after it ended: %s", left, sample)
 			}
-			_, resv, _, _ := f.Cache.Stats()
-			if resv != 0 {
-				bad("C14", "reserved=%d after the call ended", resv)
+			if _, resv, _, _ := f.Cache.Stats(); resv != 0 {
+				bad("C14", "reserved=%d 5 s after the call ended", resv)
 			}
 		}
 	}
 	return runs, viols, nil
+}
+
+func maxInt(a, b int) int {
+	if a > b {
+		return a
+	}
+	return b
 }
